@@ -162,9 +162,9 @@ def base_ts(draw, tier="quick", contemporaneous=True, single_root=True, min_muts
 MUTATORS = ["scale_coords", "individuals", "scale_times", "root_iso_muts", "few_muts", "delete_simplify",
             "delete_nosimplify", "isolate", "unary_subset", "unary_splice", "internal_sample",
             "lift_sample", "individuals", "scale_times", "delete_nosimplify", "isolate", "zero_muts",
-            "drop_sites"]
+            "drop_sites", "edge_metadata", "migrations"]
 MILD_MUTATORS = ["scale_coords", "individuals", "scale_times", "root_iso_muts", "few_muts", "scale_times",
-                 "zero_muts"]
+                 "zero_muts", "edge_metadata", "migrations"]
 
 
 @st.composite
@@ -243,7 +243,36 @@ def _apply_unguarded(draw, name, ts):
             ts = G.scale_coords(ts, draw(st.sampled_from([2.0 ** -10, 0.5, 1024.0, 2.0 ** 20])))
         elif name == "drop_sites":
             ts = drop_sites(ts)
+        elif name == "edge_metadata":
+            ts = add_edge_metadata(ts)
+        elif name == "migrations":
+            ts = add_migrations(ts)
     return ts
+
+
+def add_edge_metadata(ts):
+    """valid input: non-empty metadata on every edge (permissive JSON schema)"""
+    t = ts.dump_tables()
+    t.edges.metadata_schema = tskit.MetadataSchema.permissive_json()
+    t.edges.packset_metadata([b'{"a":1}'] * t.edges.num_rows)
+    return t.tree_sequence()
+
+
+def add_migrations(ts):
+    """valid input: two populations and one migration record of the first sample"""
+    t = ts.dump_tables()
+    if t.populations.num_rows < 2:
+        t.populations.clear()
+        t.populations.metadata_schema = tskit.MetadataSchema(None)
+        t.populations.add_row()
+        t.populations.add_row()
+        t.nodes.population = np.zeros(t.nodes.num_rows, dtype=np.int32)
+    u = int(ts.samples()[0])
+    tmax = float(ts.nodes_time.max())
+    t.migrations.add_row(left=0, right=ts.sequence_length, node=u, source=0, dest=1,
+                         time=float(ts.nodes_time[u]) + 0.5 * max(tmax - float(ts.nodes_time[u]), 1e-9))
+    t.sort()
+    return t.tree_sequence()
 
 
 def features(ts):
@@ -287,6 +316,10 @@ def features(ts):
         f.append("ts:internal_sample")
     if ts.num_individuals > 0:
         f.append("ts:individuals")
+    if ts.num_migrations > 0:
+        f.append("ts:migrations")
+    if len(ts.tables.edges.metadata) > 0:
+        f.append("ts:edge_metadata")
     if ts.num_mutations > 0:
         # mutations above roots / on isolated samples
         if np.any(ts.mutations_edge == tskit.NULL):
